@@ -201,7 +201,10 @@ def one_exec(cfg, chooser):
                 'src', initdef='init',
                 on_output=edzed.Event(probe, 'ev', repeat=INTERVAL, count=count,
                                       efilter=edzed.not_from_undef))
-            rpt_holder['r'] = next(iter(sim.circuit.getblocks(edzed.Repeat)))
+            rpt_holder['r'] = next(iter(sim.circuit.getblocks(edzed.Repeat)), None)
+            if rpt_holder['r'] is None:
+                obs['errors'].append(('implicit-repeat-block-missing',
+                                      f"Event(..., repeat={INTERVAL}, count={count}) created no Repeat block"))
             senders = {1: edzed.ExtEvent(src, 'put')}
         else:
             r2 = edzed.Repeat('r2', dest=probe, etype='ev', interval=cfg['i2'], count=count)
